@@ -403,6 +403,12 @@ variable [Add β] [Sub β] [Mul β] [Div β] [Neg β] [LT β] [DecidableLT β]
 permutation of the preorder node list) -/
 theorem iter_nodes_enumerates (t : Tree.Tree α) : (iterNodes t).Perm (allNodes t) := iterNodes_perm t
 
+/-- **`iter_nodes()` yields the nodes in level order**: the root, then the nodes of depth 1 from left
+to right, then those of depth 2, … (`levels`: the current level followed by the level made of its
+children); this is the order, `iter_nodes_enumerates` only the set -/
+theorem iter_nodes_level_order (t : Tree.Tree α) : iterNodes t = levels (t.height + 1) [t] :=
+  iterNodes_eq_levels t
+
 /-- **`num_leaves()` is the number of leaf-flagged nodes** -/
 theorem num_leaves_counts_leaves (t : Tree.Tree α) : numLeaves t = leafCount t := numLeaves_eq t
 
@@ -449,6 +455,9 @@ example : ∀ i, 0 ≤ exDQ.w i := by
   rcases i with _ | _ | _ | _ | i <;> simp
 example : 0 < exPQ.minDec := by norm_num [exPQ]
 example : importances exTQ 2 = [1, 0] := by decide +kernel
+/-- `iter_nodes_level_order` on the two-level tree `exT`: root, its two children, the two grandchildren -/
+example : levels (exT.height + 1) [exT] =
+    [exT, .leaf 0 1, .node 0 3 1 1 1 (.leaf 0 2) (.leaf 1 2), .leaf 0 2, .leaf 1 2] := by decide
 example : numLeaves exTQ = 2 ∧ maxDepthOf exTQ = 1 ∧ featuresOf exTQ = [0] := by decide +kernel
 /-- hypotheses of `fit_returns`, `training_row_predicted_by_own_leaf`, `predict_only_seen_labels`,
 `features_spec`: the dataset is non-empty, `id` lists the keys, row 2 is a training row; its leaf holds
